@@ -8,8 +8,12 @@ ENV = dict(os.environ, GOFLAGS="-mod=mod", GOPROXY="off", GOSUMDB="off", GOTOOLC
 BASE = ("go build ./... && go test -mod=mod -vet=off -count=1 ./cmd/... ./ctrlers/account/... ./ctrlers/stake/... ./ctrlers/types/... "
         "./ctrlers/vm/... ./ledger/... ./libs/sfeeder/server/... ./node/... ./sfeeder/common/... ./types/...")
 
-def sh(cmd, cwd="/repo"):
-    p = subprocess.run(cmd, shell=True, cwd=cwd, env=ENV, stdout=subprocess.PIPE, stderr=subprocess.STDOUT, text=True)
+REPO = os.environ.get("VERIF_REPO", "/repo")   # evaluate in another worktree while /repo is in use by a background run
+ENV["VERIF_REPO"] = REPO
+
+
+def sh(cmd, cwd=None):
+    p = subprocess.run(cmd, shell=True, cwd=cwd or REPO, env=ENV, stdout=subprocess.PIPE, stderr=subprocess.STDOUT, text=True)
     return p.returncode, p.stdout
 
 def main():
@@ -25,7 +29,7 @@ def main():
         for f in os.listdir(seed):
             shutil.copy(os.path.join(seed, f), dst)
     meta = json.load(open(os.path.join(dst, "meta.json")))
-    assert sh("git status --porcelain")[1].strip() == "", "/repo is dirty"
+    assert sh("git status --porcelain")[1].strip() == "", REPO + " is dirty"
     demo = [f for f in os.listdir(dst) if f.endswith("_test.go")]
     demo_cmd = meta.get("demo_cmd", "")
     # where does the demo live? take the package from the demo_cmd (last ./pkg/ argument)
@@ -34,7 +38,7 @@ def main():
     out = {"tier": tier}
     try:
         for d in demo:
-            shutil.copy(os.path.join(dst, d), os.path.join("/repo", pkg, d))
+            shutil.copy(os.path.join(dst, d), os.path.join(REPO, pkg, d))
         rc0, o0 = sh(run_demo)
         out["demo_without_change"] = "pass" if rc0 == 0 else "FAIL"
         rc, o = sh("git apply %s 2>&1 || git apply --3way %s" % (os.path.join(dst, "patch.diff"), os.path.join(dst, "patch.diff")))
@@ -42,7 +46,7 @@ def main():
         rc1, o1 = sh(run_demo)
         out["demo_with_change"] = "fail" if rc1 != 0 else "PASSES"
         for d in demo:
-            os.remove(os.path.join("/repo", pkg, d))
+            os.remove(os.path.join(REPO, pkg, d))
         rcb, ob = sh(BASE)
         if not (rcb == 0 and "FAIL" not in ob):
             # the stock suite has tests that fail now and then on a loaded machine (fixed file names under TMPDIR): once more
